@@ -136,8 +136,8 @@ def field_matches(field, host, addr, port):
     """Does the host field of one line apply to (host, addr, port)?  port=None is the default port.
     Rules (asyncssh documentation / ssh(1) known_hosts format): comma separated patterns, ! negates, a
     line applies iff some positive pattern matches and no negated one does; * and ? wildcards match
-    the whole name; a pattern that is an IP network matches the address; names of non-default ports
-    are written [name]:port; a field starting with | is an HMAC-SHA1 of one name."""
+    the whole name; a pattern that is an IP network matches the address, but only in a lookup without a
+    port (it names the undecorated address); names of non-default ports are written [name]:port; a field starting with | is an HMAC-SHA1 of one name."""
     h = '[%s]:%d' % (host, port) if port and host else host
     a = '[%s]:%d' % (addr, port) if port and addr else addr
     if field.startswith('|'):
@@ -154,7 +154,9 @@ def field_matches(field, host, addr, port):
         except ValueError:
             net = None
         if net is not None and any(c in field for c in '*?/!'):
-            hit = bool(addr) and ipaddress.ip_address(addr) in net
+            # an address / CIDR pattern names the plain (default port) address: in the [name]:port pass it
+            # matches nothing, positive or negated (/repo 9f68483); it is consulted by the fallback lookup
+            hit = not port and bool(addr) and ipaddress.ip_address(addr) in net
         else:
             hit = (bool(h) and wild(pat, h)) or (bool(a) and wild(pat, a))
         if hit and negate:
@@ -209,6 +211,8 @@ def gen_field(rng, host, addr, port):
         lambda: '*', lambda: '*.' + dom, lambda: '*' + dom, lambda: host[:2] + '*', lambda: host[:-1] + '?',
         lambda: '?' + host[1:], lambda: '*.example.com', lambda: '*.example.com,!foo.example.com',
         lambda: '*,!' + host, lambda: '*,!' + other_host, lambda: '!' + other_host + ',' + wrap(host),
+        lambda: wrap(host) + ',!' + wrap(addr), lambda: wrap(host) + ',!' + addr, lambda: wrap(host) + ',!' + other_addr,
+        lambda: wrap(addr) + ',!' + wrap(host),
         lambda: '[*]:%d' % (port or 2222), lambda: '[*.example.com]:*', lambda: '*example.co?',
         lambda: net24, lambda: ('10.0.0.0/8' if v4 else '2001:db8::/64') + ',!' + addr,
         lambda: '10.0.0.0/30', lambda: '*,!' + net24, lambda: addr.rsplit('.', 1)[0] + '.*' if v4 else '2001:*',
